@@ -152,6 +152,7 @@ type FnCtx struct {
 	lastFoldHeaps, lastFoldSorts, lastFoldArgs []string
 	lastFoldElemAt                             func(string) string
 	abbrev                                     map[string]string      // large integer terms of predicates -> the constant naming them
+	usedAlias                                  map[string]string      // contract identifier -> current name of the renamed local it was resolved to
 	refAlias                                   map[string]string      // constant naming a native result -> the reference term it may be equal to
 	noAux                                      bool                   // do not emit the defining facts of pow2 / bitlen terms (elements of folds at witness positions)
 	mapIters                                   map[string]mapIterInfo // map iterators: the map they range over and its key set at that moment
@@ -188,6 +189,8 @@ type Engine struct {
 	fnContract  map[*ssa.Function]*Contract
 	trustedUsed map[string]bool
 	mathBig     types.Type
+	// source variables of each function under contract on the accepted tree, in declaration order
+	acceptedLocals map[string][]string
 }
 
 func (fc *FnCtx) fresh(prefix string) string {
